@@ -51,9 +51,12 @@ def reqOfPacket (len fv encw : Nat) (parse : Parse) (p : Wire.Packet) (cookie : 
     poll := pollOf p.header, xmit := xmitOf p.header, reft := reftOf p.header,
     untrusted := p.ef.untrusted.map fieldOf, auth := p.ef.authenticated.map fieldOf,
     enc := p.ef.encrypted.map fieldOf, cookie := cookie.map (·.alg), encw := encw,
-    mac := match p.mac with
+    mac := (match p.mac with
       | some m => 4 + m.mac.length
-      | none => 0 }
+      | none => 0),
+    draftOk := (match p.header with
+      | .v5 _ => decide (Wire.draftIdOf p.ef = some Wire.draftVersion)
+      | _ => true) }
 
 def reqNone (len fv : Nat) (parse : Parse) : Req :=
   { len := len, fv := fv, parse := parse, version := 0, client := false, poll := 0, xmit := [], reft := [],
